@@ -69,7 +69,16 @@ void vf_run_case(Ctx& c, uint64_t index) {
   MVal model;
   unsigned shape = (unsigned)r.below(20);
   bool binext_only = false;
-  if (shape == 0) model = gen_chain(r, (int)r.range(1, 60), (int)r.below(3));
+  if (r.chance(1, 60)) {
+    // wide containers: element counts beyond what one / two length bytes hold (counts are bounded by slot ids, not by the string-length width)
+    size_t n = (r.chance(1, 6) && c.mode == "decode") ? (size_t)r.range(65530, 65800) : (size_t)r.range(250, 300);   /* (prefix and corruption modes run every cut of the input: moderate widths only) */
+    if (n + 4 > kMaxSlots) n = kMaxSlots > 300 ? 280 : kMaxSlots / 4;
+    bool as_map = n < 1000 && 2 * n + 4 <= kMaxSlots && r.coin();
+    if (as_map) { model = MVal::obj(); for (size_t i = 0; i < n; i++) model.o.emplace_back("k" + std::to_string(i), MVal::uint(i & 0x7f)); }
+    else { model = MVal::arr(); for (size_t i = 0; i < n; i++) model.a.push_back(MVal::uint(i & 0x7f)); }
+    c.count("wide_containers");
+  }
+  else if (shape == 0) model = gen_chain(r, (int)r.range(1, 60), (int)r.below(3));
   else if (shape == 1) {  // bin/ext retained byte for byte: a (minimal-header) array of bin/ext values, or a single one
     binext_only = true;
     GenOpt gb = g;
